@@ -1105,10 +1105,12 @@ pub fn main(args: &Args) {
         let v: Value = serde_json::from_str(&std::fs::read_to_string(path).unwrap()).unwrap();
         let dname = v["dialect"].as_str().unwrap_or("ansi").to_string();
         let mut buf = Buf::default();
-        if v["kind"] == "prune" || v["kind"] == "templated" {
+        if v["kind"] == "prune" || v["kind"] == "templated" || v["kind"] == "config-history" {
             watchdog(args.out.clone(), 240);
             if v["kind"] == "prune" {
                 ext::replay_prune(&sh, &v, &mut buf);
+            } else if v["kind"] == "config-history" {
+                ext::replay_history(&v, &mut buf);
             } else {
                 ext::run_templated(&mut ext::Linters::new(), &ext::titem_from_json(&v), &mut buf);
             }
@@ -1144,6 +1146,8 @@ pub fn main(args: &Args) {
     // the pruning decision on generated calls, hint audit; grammar-directed sentences; templated inputs (c13x.rs)
     let aimed = ext::grammar_stage(&sh, args, &mut out);
     let templated = ext::gen_templated(args);
+    // reused dialect / linter under changing indentation switches vs instances that never saw another configuration
+    let histories = ext::gen_histories(args);
     if let Some(only) = args.flag("--only") {
         // development aid: one of the c13x.rs parts alone
         if let Some(f) = args.flag("--dump-sentences") {
@@ -1151,6 +1155,8 @@ pub fn main(args: &Args) {
         }
         if only == "grammar" {
             par_run(&mut out, &aimed, || (), |_, it, buf| run_item_light(&sh, it, buf));
+        } else if only == "history" {
+            par_run(&mut out, &histories, || (), |_, t, buf| ext::run_history(t, buf));
         } else {
             par_run(&mut out, &templated, ext::Linters::new, |st, it, buf| ext::run_templated(st, it, buf));
         }
@@ -1185,6 +1191,7 @@ pub fn main(args: &Args) {
         par_run(&mut out, &cross_all, || (), |_, it, buf| run_item_light(sh, it, buf));
         par_run(&mut out, &aimed, || (), |_, it, buf| run_item_light(sh, it, buf));
         par_run(&mut out, &templated, ext::Linters::new, |st, it, buf| ext::run_templated(st, it, buf));
+        par_run(&mut out, &histories, || (), |_, t, buf| ext::run_history(t, buf));
         h.join().unwrap()
     });
     for b in big_bufs {
